@@ -14,6 +14,8 @@ type TypeMap struct {
 	byType  map[types.Type]string
 	typeIDs map[string]int
 	idTypes map[int]types.Type
+	// noStrLen: do not assume len(string) <= 2^62 (fewer assumptions; string theory + quantifiers is slow with it)
+	noStrLen bool
 }
 
 type structInfo struct {
@@ -259,6 +261,9 @@ func (tm *TypeMap) typeFacts(v Term, t types.Type, depth int) Term {
 			}
 		}
 		if u.Info()&types.IsString != 0 {
+			if tm.noStrLen { // root contract says `nostrlen`: drop the (only ever helpful for overflow) length bound on strings
+				return TTrue
+			}
 			return Le(App("str.len", SInt, v), Term{"4611686018427387904", SInt})
 		}
 	case *types.Slice:
